@@ -25,7 +25,7 @@ pub struct PropSpec {
 /// limb-pattern keys x 8 key codecs + edge-encoding keys x 2 groups x 8 key codecs
 const GRID_KEYS: u64 = 1296 * 8 + ((crate::env::EDGE_SCALARS_G1.len() + crate::env::EDGE_SCALARS_G2.len()) as u64) * 16;
 /// every large framed-size boundary (sc_crypt::big_lens)
-const BIG_LENS: u64 = 161;
+const BIG_LENS: u64 = 182;
 /// (group, scheme) x every composite-boundary message length (env::composite_lens)
 const COMPOSITE_CELLS: u64 = 6 * 141;
 fn cs(scenario: &'static dyn crate::driver::Scenario, class: &'static str, quick: u64, thorough: u64, exhaustive: bool) -> ClassSpec {
@@ -76,14 +76,14 @@ pub fn spec(id: &str) -> Option<PropSpec> {
                 cs(&THRESH, "byzantine", 300, 4000, false),
                 cs(&THRESH, "subsets", 84, 84, true),
                 cs(&THRESH, "large", 10, 120, false),
-                cs(&THRESH, "extremes", 78, 156, true),
+                cs(&THRESH, "extremes", 104, 208, true),
                 cs(&THRESH, "dealer-shapes", 20, 60, true),
                 cs(&THRESH, "params", 2, 4, false),
             ],
             "cases = (scenario kind, group, scheme, t, n, subset size and order | fault-script length and schedule digest | share-verification (honest?, Byzantine mode)); \
              non-trivial = a proper subset / a run with at least one fault / a negative expectation; distinct by hash of that tuple. \
              Class `subsets` enumerates every (group, scheme in {Basic, PoP}, 2<=t<=n<=7) with every subset of every size. \
-             Class `dealer-shapes`: share sets of unusual but valid polynomials dealt by the reference dealer (two participants with equal values, zero top coefficient, constant polynomial, coefficients 1 / r-1), every subset of size >= t. Class `extremes` enumerates n = 255 (thorough also 254) x every t in 2..=40 x group with exactly-t subsets made of one identifier at one end and t-1 crowded at the other end.",
+             Class `dealer-shapes`: share sets of unusual but valid polynomials dealt by the reference dealer (two participants with equal values, zero top coefficient, constant polynomial, coefficients 1 / r-1), every subset of size >= t. Class `extremes` enumerates n = 255 (thorough also 254) x every t in 2..=40 and 41, 63..66, 100, 127..129, 200, 253..255 x group with exactly-t subsets made of one identifier at one end and t-1 crowded at the other end.",
             vec!["cur-blst"],
         )),
         "C01" => Some(base(
@@ -140,22 +140,22 @@ pub fn spec(id: &str) -> Option<PropSpec> {
         }),
         "C11" => Some(base(
             vec![cs(&CRYPT, "sc-roundtrip", 1200, 24000, false), cs(&CRYPT, "sc-roundtrip-big", BIG_LENS, BIG_LENS * 6, true), cs(&CRYPT, "sc-tamper", 1500, 30000, false), cs(&CRYPT, "sc-bitflip-all", 6, 36, false)],
-            "cases = (group, scheme, message length {0..40, 100..140, LEB128 boundaries 127/128, 16383/16384, 64 KiB; class `sc-roundtrip-big`: all 161 lengths whose framed size is within 1 of 2^16..2^22 or of 168*2^j / 136*2^j, j=7..14}, codec at rest, crash/duplicate faults | relay perturbation kind {u, v bit/length/prefix, w, label, splices, in-flight truncation/extension/bit flip} | every single bit of a short ciphertext in `sc-bitflip-all`); \
+            "cases = (group, scheme, message length {0..40, 100..140, LEB128 boundaries 127/128, 16383/16384, 64 KiB; class `sc-roundtrip-big`: all 182 lengths whose framed size is within 1 of 2^16..2^25 or of 168*2^j / 136*2^j, j=7..14}, codec at rest, crash/duplicate faults | relay perturbation kind {u, v bit/length/prefix, w, label, splices, in-flight truncation/extension/bit flip} | every single bit of a short ciphertext in `sc-bitflip-all`); \
              non-trivial = any altered ciphertext or a run with crash/duplicate faults",
             vec!["cur-blst"],
         )),
         "C12" => Some(base(
-            vec![cs(&CRYPT, "td-subsets", 60, 60, true), cs(&CRYPT, "td-protocol", 1500, 20000, false), cs(&CRYPT, "td-extremes", 78, 156, true)],
+            vec![cs(&CRYPT, "td-subsets", 60, 60, true), cs(&CRYPT, "td-protocol", 1500, 20000, false), cs(&CRYPT, "td-extremes", 104, 208, true)],
             "cases = (group, ciphertext scheme, t, n, share subset and order | arrival history under loss/duplication/reordering) and every (share, key share, ciphertext) mismatch; class `td-subsets` enumerates 2<=t<=n<=5 x 3 schemes x 2 groups with every subset; non-trivial = proper subsets, mismatches",
             vec!["cur-blst"],
         )),
         "C13" => Some(base(
             vec![cs(&CRYPT, "tl-beacon", 1000, 15000, false), cs(&CRYPT, "tl-beacon-big", BIG_LENS, BIG_LENS * 6, true), cs(&CRYPT, "tl-tamper", 2400, 36000, false), cs(&CRYPT, "tl-bitflip-all", 12, 54, false)],
-            "cases = (group, scheme, beacon kind {whole key, t-of-n recombined over a lossy/duplicating transport}, message length (class `tl-beacon-big`: all 161 lengths whose framed size is within 1 of 2^16..2^22 or of 168*2^j / 136*2^j, j=7..14), identifier kind, fault-script length | perturbation kind distinguishing header, authenticated prefix of w and padding, incl. in-place rewrites of the length prefix to values around 2^7..2^128 | every single bit in `tl-bitflip-all`); non-trivial = recombined beacons, runs with faults, all altered ciphertexts",
+            "cases = (group, scheme, beacon kind {whole key, t-of-n recombined over a lossy/duplicating transport}, message length (class `tl-beacon-big`: all 182 lengths whose framed size is within 1 of 2^16..2^25 or of 168*2^j / 136*2^j, j=7..14), identifier kind, fault-script length | perturbation kind distinguishing header, authenticated prefix of w and padding, incl. in-place rewrites of the length prefix to values around 2^7..2^128 | every single bit in `tl-bitflip-all`); non-trivial = recombined beacons, runs with faults, all altered ciphertexts",
             vec!["cur-blst"],
         )),
         "C14" => Some(base(
-            vec![cs(&CRYPT, "eg-tally", 1500, 20000, false), cs(&CRYPT, "eg-extremes", 78, 156, true), cs(&CRYPT, "eg-proof-tamper", 2400, 32000, false)],
+            vec![cs(&CRYPT, "eg-tally", 1500, 20000, false), cs(&CRYPT, "eg-extremes", 104, 208, true), cs(&CRYPT, "eg-proof-tamper", 2400, 32000, false)],
             "cases = (group, number of voters, which ballots arrived in which order under loss/duplication/delay, fault-script length) with conservation oracle, threshold share subset; proof perturbation kind over (c1, c2, message_proof, blinder_proof, challenge, pk); non-trivial = sums of >1 ciphertext, runs with faults, all altered proofs",
             vec!["cur-blst"],
         )),
@@ -280,8 +280,8 @@ pub fn spec(id: &str) -> Option<PropSpec> {
             needs_entropy: true,
             needs_clock: true,
             ..base(
-                vec![cs(&ENTROPY, "history", 360, 360, false), cs(&ENTROPY, "marathon", 10, 10, false), cs(&ENTROPY, "processes", 24, 48, false)],
-                "cases = (randomized entry point, group, mode in {one call sequence (8N calls), 8 caller threads, 4 process incarnations, two device seeds, all entry points interleaved and compared with each other, two child processes seam on/off, `marathon`: 2^18+4 (quick) / 2^22+4 (thorough) calls of one cheap entry point on one thread}); every run is also compared with the earlier runs on its worker thread; \
+                vec![cs(&ENTROPY, "history", 360, 360, false), cs(&ENTROPY, "marathon", 10, 10, false), cs(&ENTROPY, "fork", 144, 144, true), cs(&ENTROPY, "processes", 24, 48, false)],
+                "cases = (randomized entry point, group, mode in {one call sequence (8N calls), 8 caller threads, 4 process incarnations, two device seeds, all entry points interleaved and compared with each other, two child processes seam on/off, `fork`: a process that has made 0..5 randomized calls forks twice and parent and both workers call again (12 entry points x 2 groups x 6 warm-up counts), `marathon`: 2^18+4 (quick) / 2^22+4 (thorough) calls of one cheap entry point on one thread}); every run is also compared with the earlier runs on its worker thread; \
                  N identical-argument calls per case (quick 256, thorough 4096) at a frozen simulated clock; every exposed ephemeral (u, masks, c1, recomputed r1, commitment, secret, key, challenge, share values) must be pairwise distinct; all cases are non-trivial",
                 vec!["cur-blst"],
             )
